@@ -80,11 +80,21 @@ def rt_negative(run, family, dev, inv="DispatchIff", max_routes=2, max_segs=2, m
             name="RT_neg_" + dev, expect_violation=inv)
 
 
+def rt_random(run, label, kind, n, chunk=4000):
+    gen = os.path.join(run.work, label + ".jsonl")
+    with open(gen, "w") as fo:
+        p = run.hrun(["tree", "gen", run.seed, n, kind], stdout=fo)
+    if p.returncode != 0:
+        raise Infra("tree gen failed: " + p.stderr[-2000:])
+    return run.conformance(label, "tree", gen, "RouteTreeTrace", RT_TRACE_CFG, chunk_events=chunk)
+
+
 def c01(run):
     quick = run.tier == "quick"
     run.build_harness()
     rt_negative(run, "prio", "LIFO")
     rt_family(run, "prio_2x2", "prio", 2, 2)
+    rt_random(run, "rand_prio", "prio", 300 if quick else 20000)
     return run.finish(rule="TODO")
 
 
